@@ -128,6 +128,21 @@ static void c02_prior_obj(Obj* o, int fmt)
     obj_fill(o, F->len, 0x00);
     if (F->has_init) for (size_t i = 0; F->init_hex[2 * i] && (int)i < F->len; i++) obj_hdr(o)[i] = (uint8_t)(hexval(F->init_hex[2 * i]) * 16 + hexval(F->init_hex[2 * i + 1]));
 }
+/* values for the OTHER field of a semantic prior: 0..8, the maximum, one-hot values, and every integer constant the public
+ * headers name that fits the field (message types of other formats, format codes, subtypes ...); thorough: all values up to 8 bits */
+static int prior_values(const RowField* G, uint64_t* out, int cap)
+{
+    uint64_t gm = mask_w((unsigned)G->w); int n = 0;
+#define PUSH(v) do { uint64_t v_ = (v); int dup_ = 0; for (int i_ = 0; i_ < n; i_++) dup_ |= out[i_] == v_; if (!dup_ && n < cap && v_ <= gm) out[n++] = v_; } while (0)
+    if (G->w <= (g_thorough ? 8 : 3)) { for (uint64_t u = 0; u <= gm && n < cap; u++) out[n++] = u; return n; }
+    for (uint64_t u = 0; u <= 8; u++) PUSH(u);
+    PUSH(gm);
+    if (g_lite) return n;
+    for (unsigned i = 4; i < (unsigned)G->w; i++) PUSH(1ull << i);
+    for (int i = 0; i < g_npool; i++) PUSH(g_pool[i]);
+#undef PUSH
+    return n;
+}
 static void pv_enum(unsigned w, valfn f, void* ctx)
 {
     uint64_t m = mask_w(w);
@@ -162,14 +177,9 @@ static void suite_c01_priors(void)
             for (int g = 0; g < F->nf; g++) {
                 const RowField* G = &F->f[g];
                 if (g == fld || G->w == 0 || overlaps(R, G)) continue;
-                uint64_t gm = mask_w((unsigned)G->w);
-                uint64_t ulim = (G->w <= (g_thorough ? 8 : 3)) ? gm : 8;
+                uint64_t us[400]; int nu = prior_values(G, us, 400);
                 c.g = g;
-                for (uint64_t u = 0; u <= ulim && u <= gm; u++) { c.u = u; pv_enum((unsigned)R->w, c01_pval, &c); }
-                if (gm > ulim) {
-                    c.u = gm; pv_enum((unsigned)R->w, c01_pval, &c);
-                    if (!g_lite) for (unsigned i = 4; i < (unsigned)G->w; i++) { c.u = 1ull << i; pv_enum((unsigned)R->w, c01_pval, &c); }
-                }
+                for (int ui = 0; ui < nu; ui++) { c.u = us[ui]; pv_enum((unsigned)R->w, c01_pval, &c); }
             }
         }
     }
@@ -436,18 +446,13 @@ static void suite_c02_priors(void)
             for (int g = 0; g < F->nf; g++) {
                 const RowField* G = &F->f[g];
                 if (g == fld || G->w == 0 || overlaps(R, G)) continue;
-                uint64_t gm = mask_w((unsigned)G->w);
-                uint64_t ulim = (G->w <= (g_thorough ? 8 : 3)) ? gm : 8;
+                uint64_t us[400]; int nu = prior_values(G, us, 400);
                 c.g1 = g; c.g2 = -1;
-                for (uint64_t u = 0; u <= ulim && u <= gm; u++) { c.u = u; if (g_lite) { sv_small_fn((unsigned)R->w, c02_pval, &c); } else pv_enum((unsigned)R->w, c02_pval, &c); }
+                for (int ui = 0; ui < nu; ui++) { c.u = us[ui]; if (g_lite) { sv_small_fn((unsigned)R->w, c02_pval, &c); } else pv_enum((unsigned)R->w, c02_pval, &c); }
                 /* the same with the field itself at all-ones before the write (a 1 -> 0 transition that triggers something) */
                 c.g1 = g + 1000;
-                for (uint64_t u = 0; u <= ulim && u <= gm; u++) { c.u = u; sv_small_fn((unsigned)R->w, c02_pval, &c); }
+                for (int ui = 0; ui < nu; ui++) { c.u = us[ui]; sv_small_fn((unsigned)R->w, c02_pval, &c); }
                 c.g1 = g;
-                if (gm > ulim) {
-                    c.u = gm; pv_enum((unsigned)R->w, c02_pval, &c);
-                    if (!g_lite) for (unsigned i = 4; i < (unsigned)G->w; i++) { c.u = 1ull << i; pv_enum((unsigned)R->w, c02_pval, &c); }
-                }
             }
             if (!g_thorough) continue;
             /* two other fields with the values 1..4 each */
@@ -560,6 +565,17 @@ static void replay_c02(int sub, long long p[8])
 
 #include "explore_fields2.inc"
 
+
+/* the thunks give every argument expression of a library call a side effect; an entry point that evaluates one twice
+ * (a function turned into a macro) is reported once per run */
+static void check_arg_evaluation(const char* suite)
+{
+    if (!w_ev_mismatches()) return;
+    uint8_t nm[96]; w_ev_last(nm, sizeof nm);
+    char key[160]; snprintf(key, sizeof key, "%s evaluates an argument expression more or less than once", (char*)nm);
+    violation(suite, key, "", "%llu calls; the call site passes expressions with side effects, e.g. f(*p++)", (unsigned long long)w_ev_mismatches());
+}
+
 /* ======================================================================= */
 int main(int argc, char** argv)
 {
@@ -601,6 +617,7 @@ int main(int argc, char** argv)
     if (!strcmp(g_suite, "C01")) suite_c01();
     else if (!strcmp(g_suite, "C02")) suite_c02();
     else if (!run_other(g_suite)) { fprintf(stderr, "unknown suite %s\n", g_suite); return 2; }
+    check_arg_evaluation(g_suite);
     emit_counters(g_suite);
     return 0;
 }
